@@ -18,6 +18,8 @@ FAMILIES = {
     "exchanger": ("grow_exchanger", "dkg/exchanger.go: partial-signature exchange of the ceremony (real parsigdb + parsigex, gater, share-index check)"),
     "forkjoin": ("grow_forkjoin", "app/forkjoin: fan-out helper (workers, fail-fast, cancel, Flatten, goroutine accounting)"),
     "lifecycle": ("grow_lifecycle", "app/lifecycle: start/stop hook ordering, shutdown budget, Run's error, late registration"),
+    "inclusion": ("grow_inclusion", "core/tracker/inclusion.go: Submitted / per-slot check loop with lags 6 and 32 / Trim, inclusion by aggregation bits (Phase0 + Electra layouts), reports to log and tracker, WithTracking broadcaster edge"),
+    "workflow": ("grow_workflow", "whole system: clusters of real app.Run nodes (QBFT over libp2p, validator mocks) under faults, every core.Wire edge call on every node trace-validated against the composed workflow (value flow, causal order, C01 one root per duty and validator)"),
     "retry": ("grow_retry", "app/retry + core/retry.go: backoff, duty-deadline context, error classes, Shutdown accounting, wired edges"),
 }
 
